@@ -35,6 +35,8 @@ class Ev:
             return np.dot(self.w.astype(y.dtype), dy)
         if k == "steep":
             return np.tanh(50.0 * (y[self.spec["i"]] - self.c)) + self.c
+        if k == "tsin":      # periodic in time: the SAME function crosses again and again, omega*(t - tref) formed in the time's own precision
+            return np.sin(self.spec["omega"] * (t - self.spec["tref"]))
         raise ValueError(k)
 
     def __call__(self, t, y, *a, **kw):
@@ -54,6 +56,8 @@ class Ev:
         k = self.kind
         if k == "norm2":
             hs = ymax ** 2
+        elif k == "tsin":
+            hs = 1.0
         elif k == "time":
             hs = ymax   # caller passes max|t| for time events
         else:
